@@ -284,6 +284,7 @@ func specRecords(es []SymbolEntry, k int) uint32 {
 //@ final[hdrvals@C08] using(hdrs) header.Machine == 0x14c && header.NumberOfSections == 3 && header.SizeOfOptionalHeader == 0 && len(sectionHeaders) == 3 && sectionHeaders[0].SizeOfRawData == uint32(len(ctx.MachineCode)) && sectionHeaders[0].PointerToRawData == 140 && sectionHeaders[0].NumberOfRelocations == 0 && sectionHeaders[1].SizeOfRawData == 0 && sectionHeaders[1].PointerToRawData == 0 && sectionHeaders[2].SizeOfRawData == 0 && sectionHeaders[2].PointerToRawData == 0 && specName8(sectionHeaders[0].Name, ".text") && specName8(sectionHeaders[1].Name, ".data") && specName8(sectionHeaders[2].Name, ".bss")
 //@ final[text@C09] using(hdrs, text) forall(0, len(ctx.MachineCode), func(i int) bool { return finalBytes[140+i] == ctx.MachineCode[i] })
 //@ ensures[once@C19+C08] result0 == nil ==> vcWriteCount() == 1
+//@ ensures[atmostonce@C19] vcWriteCount() <= 1
 //@ assigns *
 
 // Thin safety-only contracts (C13): these functions get one obligation per panic site; callers keep
